@@ -12,11 +12,11 @@ VERIF = "/verif"
 # (name, property ids expected to catch it, file, old, new)
 M = [
  ("c01-acquire-no-lock", ["C01"], "limiter/default.go", "func (l *DefaultLimiter) Acquire(ctx context.Context) (core.Listener, bool) {\n\tl.mu.Lock()\n\tdefer l.mu.Unlock()\n", "func (l *DefaultLimiter) Acquire(ctx context.Context) (core.Listener, bool) {\n"),
- ("c01-precise-no-lock", ["C01"], "strategy/precise.go", "\ts.mu.Lock()\n\tdefer s.mu.Unlock()\n\tif s.inFlight >= s.limit {", "\tif s.inFlight >= s.limit {"),
+ ("c01-precise-no-lock", ["C17", "C01"], "strategy/precise.go", "\ts.mu.Lock()\n\tdefer s.mu.Unlock()\n\tif s.inFlight >= s.limit {", "\tif s.inFlight >= s.limit {"),
  ("c01-setlimit-no-floor", ["C01", "C05"], "strategy/simple.go", "func (s *SimpleStrategy) SetLimit(limit int) {\n\tif limit < 1 {\n\t\tlimit = 1\n\t}\n", "func (s *SimpleStrategy) SetLimit(limit int) {\n"),
  ("c01-gate-off-by-one", ["C01"], "strategy/precise.go", "if s.inFlight >= s.limit {", "if s.inFlight > s.limit {"),
  ("c02-ignore-no-release", ["C02", "C01"], "limiter/default.go", "func (l *DefaultListener) OnIgnore() {\n\tatomic.AddInt64(l.inFlight, -1)\n\tl.token.Release()\n}", "func (l *DefaultListener) OnIgnore() {\n\tatomic.AddInt64(l.inFlight, -1)\n}"),
- ("c02-delegate-ondropped-not-forwarded", ["C02"], "limiter/delegate_listener.go", "\tl.delegateListener.OnDropped()\n", "\tl.delegateListener.OnIgnore()\n\tif false {\n\t\tl.delegateListener.OnDropped()\n\t}\n"),
+ ("c02-delegate-ondropped-not-forwarded", ["C02"], "limiter/delegate_listener.go", "\tl.delegateListener.OnDropped()\n", "\tif false {\n\t\tl.delegateListener.OnDropped()\n\t}\n"),
  ("c02-gauge-not-decremented-on-drop", ["C02"], "limiter/default.go", "func (l *DefaultListener) OnDropped() {\n\tatomic.AddInt64(l.inFlight, -1)\n", "func (l *DefaultListener) OnDropped() {\n"),
  ("c02-giveup-strands-listener", ["C02", "C12", "C10"], "limiter/queue_blocking.go", "\tcase listener, ok := <-eventReleaseChan:\n\t\tif ok {\n\t\t\treturn listener\n\t\t}\n\tdefault:\n", "\tdefault:\n"),
  ("c02-bin-not-released", ["C02", "C03"], "strategy/lookup_partition.go", "\t\ts.busy--\n\t\tpartition.Release()\n", "\t\ts.busy--\n"),
@@ -69,7 +69,7 @@ M = [
  ("c16-vegas-notify-presmoothing", ["C16"], "limit/vegas.go", "\tl.estimatedLimit = newLimit\n\tl.notifyListeners(l.estimatedLimit)", "\tl.notifyListeners(l.estimatedLimit)\n\tl.estimatedLimit = newLimit"),
  ("c16-windowed-registers-self-only", ["C16"], "limit/windowed.go", "\tl.listeners = append(l.listeners, consumer)\n\tl.delegate.NotifyOnChange(consumer)\n", "\tl.listeners = append(l.listeners, consumer)\n"),
  ("c17-aimd-string-no-lock", ["C17"], "limit/aimd.go", "func (l *AIMDLimit) EstimatedLimit() int {\n\tl.mu.RLock()\n\tdefer l.mu.RUnlock()\n\treturn l.limit", "func (l *AIMDLimit) EstimatedLimit() int {\n\treturn l.limit"),
- ("c17-registergauge-no-lock", ["C17"], "metric_registry/gometrics/registry.go", "\tr.mu.Lock()\n\tdefer r.mu.Unlock()\n\n\tif _, ok := r.registeredGauges[ID]; ok {", "\tif _, ok := r.registeredGauges[ID]; ok {"),
+ ("c17-registergauge-no-lock", ["C17"], "metric_registry/gometrics/registry.go", "\tr.mu.Lock()\n\tdefer r.mu.Unlock()\n\n\t// only add once\n\tif _, ok := r.registeredGauges[ID]; ok {", "\tif _, ok := r.registeredGauges[ID]; ok {"),
  ("c17-precise-getlimit-no-lock", ["C17"], "strategy/precise.go", "func (s *PreciseStrategy) GetLimit() int {\n\ts.mu.Lock()\n\tdefer s.mu.Unlock()\n\treturn int(s.limit)", "func (s *PreciseStrategy) GetLimit() int {\n\treturn int(s.limit)"),
  ("c17-single-get-no-lock", ["C17"], "measurements/single.go", "func (m *SingleMeasurement) Get() float64 {\n\tm.mu.RLock()\n\tdefer m.mu.RUnlock()\n\treturn m.value", "func (m *SingleMeasurement) Get() float64 {\n\treturn m.value"),
  ("c18-minimum-lt-to-gt", ["C18"], "measurements/minimum.go", "if oldValue == 0.0 || sample < oldValue {", "if oldValue == 0.0 || sample > oldValue {"),
